@@ -34,6 +34,9 @@ pub(crate) struct RepSocket {
   ingress_engine: AddressedIngressEngine,
   pending_pipe_senders: ParkingLotMutex<HashMap<usize, PipeMessageSender>>,
   state: ParkingLotMutex<RepState>,
+  /// Serialises `recv()` calls: the state check, the awaited request and the state update of one
+  /// call must not interleave with those of another.
+  recv_serializer: tokio::sync::Mutex<()>,
   pipe_read_id_to_endpoint_uri: RwLock<HashMap<usize, String>>,
 }
 
@@ -45,6 +48,7 @@ impl RepSocket {
       ingress_engine: AddressedIngressEngine::new(max_conn),
       pending_pipe_senders: ParkingLotMutex::new(HashMap::new()),
       state: ParkingLotMutex::new(RepState::ReadyToReceive),
+      recv_serializer: tokio::sync::Mutex::new(()),
       pipe_read_id_to_endpoint_uri: RwLock::new(HashMap::new()),
     }
   }
@@ -143,6 +147,9 @@ impl ISocket for RepSocket {
     if !self.core.is_running() {
       return Err(ZmqError::InvalidState("Socket is closing".into()));
     }
+    // Concurrent receivers queue up here; the loser of a race then sees `ReceivedRequest` below
+    // instead of taking a second request whose PeerInfo would overwrite the first.
+    let _recv_permit = self.recv_serializer.lock().await;
     {
       let guard = self.state.lock();
       if !matches!(*guard, RepState::ReadyToReceive) {
@@ -232,6 +239,7 @@ impl ISocket for RepSocket {
     if !self.core.is_running() {
       return Err(ZmqError::InvalidState("Socket is closing".into()));
     }
+    let _recv_permit = self.recv_serializer.lock().await;
     {
       let guard = self.state.lock();
       if !matches!(*guard, RepState::ReadyToReceive) {
